@@ -2,9 +2,11 @@ package decoder
 
 import (
 	"context"
+	"strings"
 
 	"github.com/hashicorp/hcl-lang/lang"
 	"github.com/hashicorp/hcl-lang/schema"
+	"github.com/hashicorp/hcl-lang/validator"
 	"github.com/hashicorp/hcl/v2"
 	"github.com/zclconf/go-cty/cty"
 )
@@ -108,4 +110,43 @@ func VerifH_C01C02C12_Hover_S1() {
 	verifNoWrites("C04:hover", true)
 	verifNoWrites("C05:hover", false)
 	verifReach("end")
+}
+
+// shared helpers of the harness files (kept here so that a kernel file which stops compiling
+// against a changed tree can be left out without taking the others with it)
+
+// hasPrefixSym: strings.HasPrefix re-stated (the specification must not call the code under test's helpers; strings.HasPrefix is the library).
+func hasPrefixSym(s, p string) bool {
+	if len(p) > len(s) {
+		return false
+	}
+	return s[:len(p)] == p
+}
+
+func verifValidators() []validator.Validator {
+	return []validator.Validator{
+		validator.BlockLabelsLength{}, validator.DeprecatedAttribute{}, validator.DeprecatedBlock{},
+		validator.MaxBlocks{}, validator.MinBlocks{}, validator.MissingRequiredAttribute{},
+		validator.UnexpectedAttribute{}, validator.UnexpectedBlock{},
+	}
+}
+
+func verifCountDiags(diags hcl.Diagnostics, prefix string) int {
+	n := 0
+	for _, d := range diags {
+		if strings.HasPrefix(d.Summary, prefix) {
+			n++
+		}
+	}
+	return n
+}
+
+// verifContains: strings.Contains re-stated for concrete strings.
+func verifContains(s, sub string) bool {
+	for i := 0; i+len(sub) <= len(s); i++ {
+		if s[i:i+len(sub)] == sub {
+			return true
+		}
+	}
+	return false
 }
